@@ -996,3 +996,41 @@ func linkFieldIsSetOnceAtCreation(r *an.Run, st *types.Named, fld int) bool {
 	}
 	return true
 }
+
+// importsAddedWithoutMerging (C17-R11): the comments of an import declaration
+// in which nothing was rewritten stay attached to it. astutil.AddNamedImport
+// and AddImport end by merging ALL import declarations of the file into the
+// first one (x/tools, go/ast/astutil/imports.go: "Merge all the import
+// declarations into the first one"): the specs of a second `import ( … )`
+// block are moved, the block disappears, its doc comment attaches to whatever
+// follows and the end-of-line comments of its specs are dropped. So every call
+// site of those two functions in code reachable from the two pipelines is a
+// place where adding one import rearranges — and loses comments of — import
+// declarations the patch never mentioned.
+func importsAddedWithoutMerging(r *an.Run, rule string) {
+	r.Rule(rule)
+	roots := []*ssa.Function{r.P.Func(mainP, "patchRunner.Apply"), r.P.Func(patchP, "File.Apply")}
+	for _, f := range roots {
+		if f == nil {
+			r.Undecided("anchor|apply-roots", 0, "an entry point of patch application was not found")
+			return
+		}
+	}
+	n := 0
+	var fns []*ssa.Function
+	for f := range r.P.ReachableModuleFuncs(roots...) {
+		fns = append(fns, f)
+	}
+	sort.Slice(fns, func(i, j int) bool { return fns[i].String() < fns[j].String() })
+	for _, f := range fns {
+		for _, c := range an.Calls(f) {
+			if !an.IsCallTo(c, addNamedImport, addImport) {
+				continue
+			}
+			n++
+			r.Fail(short(f)+"|merges-import-blocks|"+lastSegment(an.CalleeName(c)), c.Pos(), "%s adds the import with %s, which merges every import declaration of the file into the first one: a second import block the patch never touched disappears, its doc comment attaches to the next declaration and the end-of-line comments of its specs are lost", short(f), an.TrimModule(an.CalleeName(c)))
+		}
+	}
+	r.Count("places where an import is added", n)
+	r.Min("places where an import is added", 1)
+}
